@@ -296,7 +296,7 @@ def layouts_untouched_bounded_instance():
     from pb_bss.math import solve as ms
 
     FN = ['psd', 'gev', 'gev-eig', 'pca', 'mvdr', 'souden', 'wmwf', 'lcmv', 'ban', 'phase', 'apply', 'bf-gev', 'bf-rank1', 'masks', 'si_sdr', 'sxr', 'stable_solve',
-          'vuv', 'biased', 'from_cov', 'set_snr', 'bingham', 'set_snr', 'bingham', 'wmwf-fd', 'wmwf-csv', 'bf-wmwf-fd', 'souden-auto', 'cond', 'psd-nonorm']
+          'vuv', 'biased', 'from_cov', 'set_snr', 'bingham', 'set_snr', 'bingham', 'wmwf-fd', 'wmwf-csv', 'bf-wmwf-fd', 'souden-auto', 'cond', 'psd-nonorm', 'sample_cacgmm', 'sample_cacgmm']
 
     def make(B):
         return {'fn': B.choose('fn', FN), 'layout': B.choose('layout', ['C', 'F', 'H', 'strided']), 'ro': B.choose('ro', [False, True]),
@@ -334,8 +334,12 @@ def layouts_untouched_bounded_instance():
         Q = np.linalg.qr(cn(2, D, D))[0]
         bvec, bval = lay(Q, inp['layout']), lay(np.array([[0.9, 0.1, 0.5][:D], [-3.0, 0.0, -7.0][:D]]), inp['layout'])
         bpts = lay(cn(2, 5, D), inp['layout'])
+        # mixture weights of a sampler, normalised up to rounding / to nine digits only (np.random.choice accepts both)
+        sw = rng.dirichlet(np.ones(3))
+        sw = np.round(sw, 9) if inp['seed'] % 2 else sw * (1 + 2e-16)
+        scov = lay(A @ np.conj(np.swapaxes(A, -1, -2)) + 0.05 * np.eye(D), inp['layout'], True)
         args = dict(tgt=tgt, noi=noi, atf=atf, w=w, obs=obs, mask=mask, sig=sig, ref=ref, est=est, img=img, noise_img=noise_img, bsig=bsig,
-                    snr_x=snr_x, snr_n=snr_n, cur=cur, bvec=bvec, bval=bval, bpts=bpts)
+                    snr_x=snr_x, snr_n=snr_n, cur=cur, bvec=bvec, bval=bval, bpts=bpts, sw=sw, scov=scov)
         if inp['ro']:
             for a in args.values():
                 a.flags.writeable = False
@@ -358,6 +362,11 @@ def layouts_untouched_bounded_instance():
                 return bf.get_mvdr_vector_souden(tgt, noi, ref_channel=0)
             if fn == 'wmwf':
                 return bf.get_wmwf_vector(tgt, noi, reference_channel=1)
+            if fn == 'sample_cacgmm':
+                from pb_bss.distribution.cacgmm import sample_cacgmm
+                np.random.seed(inp['seed'])
+                x_, l_ = sample_cacgmm(20, sw, scov, return_label=True)
+                return [np.asarray(x_), np.asarray(l_)]
             if fn == 'wmwf-fd':
                 return bf.get_wmwf_vector(tgt, noi, reference_channel=0, distortion_weight='frequency_dependent')
             if fn == 'wmwf-csv':
